@@ -134,7 +134,12 @@ def bind_stdlib_imports(tree, env):
         elif isinstance(st, ast.Import):
             for al in st.names:
                 if al.name in tab:
-                    env.setdefault(al.asname or al.name, NS(**{k: v for k, v in tab[al.name].items()}))
+                    nm = al.asname or al.name
+                    cur = env.get(nm)
+                    if cur is None or type(cur).__name__ in ("MFunctools", "MItertools", "MMath"):
+                        # the module as the table knows it (the thin default models only carry what un-imported code may name)
+                        thin = {k: getattr(cur, k) for k in dir(type(cur)) if not k.startswith("_")} if cur is not None else {}
+                        env[nm] = NS(**{**thin, **tab[al.name]})
 
 
 def bind_module_constants(tree, env):
